@@ -102,6 +102,28 @@ def main(tier):
         shape, axis = rng.choice([([3, 5], None), ([3, 5], 0), ([3, 5], -1), ([2, 3, 4], None), ([2, 3, 4], 1), ([7], None)])
         bits = [N.encode_nearest(Fraction(rng.uniform(-1, 1) * 10.0 ** rng.uniform(-3, 2)), dtype) for _ in range(prod(shape))]
         acalls.append({"fn": "absmax_scale", "dtype": dtype, "shape": shape, "bits": bits, "qtype": qt, "axis": axis})
+    # histories: the same Parameter object quantized, updated in place, quantized again - must equal a fresh tensor of the same values
+    hcalls = []
+    for i in range(20 if tier == "quick" else 120):
+        dtype = ["float32", "float16", "bfloat16"][i % 3]
+        qt = N.QTYPES[i % 5]
+        shape, axis = rng.choice([([4, 6], 0), ([4, 6], -1), ([3, 2, 4], 0)])
+        bits = [N.encode_nearest(Fraction(rng.uniform(-1, 1) * 10.0 ** rng.uniform(-2, 1)), dtype) for _ in range(prod(shape))]
+        hcalls.append({"fn": "quantize_weight_history", "dtype": dtype, "shape": shape, "bits": bits, "qtype": qt, "axis": axis, "group_size": None, "optimizer": rng.choice([None, None, "max" if qt in ("qint2", "qint4") else "absmax"]),
+                       "update": ["data_mul", "data_shrink", "data_copy", "data_index", "no_grad_mul"][i % 5], "requires_grad": rng.random() < 0.7, "no_grad_calls": rng.random() < 0.5})
+    hres = ck.impl("numq", {"calls": hcalls}, timeout=1200)
+    if isinstance(hres, dict):
+        ck.violation("implementation worker crashed (history stream): " + hres.get("stderr", "")[-300:], {"stderr": hres.get("stderr")})
+    else:
+        for c, r in zip(hcalls, hres):
+            cfg = {k: c[k] for k in ("dtype", "qtype", "shape", "axis", "update", "requires_grad", "no_grad_calls", "optimizer")}
+            ck.count("stream", "history:" + c["update"])
+            if not r["ok"]:
+                ck.violation(f"quantize_weight raised {r['exn']} on a Parameter ({c['update']})", {"config": cfg, "exception": r, "bits": c["bits"]})
+            elif not r["same"]:
+                ck.violation(f"quantize_weight of a Parameter after an in-place update ({c['update']}) differs from quantizing a fresh tensor holding the same values: the scale depends on the history of the object, not on its values",
+                             {"config": cfg, "bits": c["bits"], "observed": r})
+            ck.case(("history", c["dtype"], c["qtype"], c["update"], tuple(c["bits"])), nontrivial=True)
     res = ck.impl("numq", {"calls": calls + acalls}, timeout=2400)
     if isinstance(res, dict):
         ck.violation("implementation worker crashed: " + res.get("stderr", "")[-300:], {"stderr": res.get("stderr")})
